@@ -16,7 +16,7 @@ out.append("| Seeded change | What it does | Result of `./check.py <Cxx> quick` 
 out.append("|---|---|---|")
 for k in sorted(res):
     m = json.load(open('%s/seeded/%s/meta.json' % (R, k)))
-    what = re.sub(r'^#\s*(C\d+\s*/\s*)?(m\d|change \d)\s*-\s*', '', m['needs_to_manifest']).strip()
+    what = re.sub(r'^#+\s*(C\d+\s*[/:-]?\s*)?(seeded change\s*)?(m\d|change \d)\s*[-:–—]*\s*', '', m['needs_to_manifest'], flags=re.I).strip()
     v = res[k]
     r = v['status'] + (", concrete replay" if v.get('concrete') else (", broken tie" if v['status'] == 'caught' else ""))
     out.append("| %s | %s | %s (%ss) |" % (k, what.replace('|', '/'), r, v.get('wall_s', '?')))
